@@ -131,11 +131,11 @@ pub fn def(tier: Tier) -> PropertyDef {
         rule: "M-FILTER: abstract filters (kind, enabled, negated, ecu/apid/ctid literal (short, full, over-long) or regex from a small grammar (anchored/unanchored atom sequences, '.', classes, alternation), type by mstp or verb_mstp_mtin, level min/max, payload literal/regex with ignore-case, lifecycles) x messages over a small id universe (with/without extended header, targeted+random type bytes, lifecycle 0..5, payload words in mixed case preset or decoded from a verbose string); reference matches() written from the statement; front-ends JSON, DLF XML, dlt-convert list (ECU:APID:CTID expressions are driven through the binary in C14); JSON round trip of every loaded filter. Non-trivial: >=2 criteria of which some but not all hold.",
         assumptions: vec!["regex engines (regex, fancy-regex) are trusted; id patterns are additionally evaluated by a hand-written matcher that must agree", "each front-end is exercised only on the sub-language it can express (DLF: no negation/lifecycles/ecu regex, type only 'control'; dlt-convert: literal apid+ctid)"],
         subs: vec![
-            sub("json_frontend", tier.pick(120_000, 3_000_000), (af(), msgs()), json_frontend)
+            sub("json_frontend", tier.pick(400_000, 6_000_000), (af(), msgs()), json_frontend)
                 .rates(&[("negated", 0.1), ("id_regex", 0.2), ("type_criterion", 0.2), ("level_criterion", 0.2), ("payload_criterion", 0.2), ("ignore_case", 0.05), ("some_match", 0.2), ("ext_criterion_on_msg_without_ext", 0.1)])
                 .boxed(),
-            sub("dlf_frontend", tier.pick(40_000, 1_000_000), (prop::collection::vec(af(), 1..4), msgs()), dlf_frontend).rates(&[("payload_criterion", 0.2), ("some_match", 0.2)]).boxed(),
-            sub("convert_format", tier.pick(20_000, 400_000), (prop::collection::vec((ids(), ids()), 0..5), msgs()), convert_frontend).rates(&[("some_match", 0.05)]).boxed(),
+            sub("dlf_frontend", tier.pick(150_000, 2_000_000), (prop::collection::vec(af(), 1..4), msgs()), dlf_frontend).rates(&[("payload_criterion", 0.2), ("some_match", 0.2)]).boxed(),
+            sub("convert_format", tier.pick(100_000, 1_000_000), (prop::collection::vec((ids(), ids()), 0..5), msgs()), convert_frontend).rates(&[("some_match", 0.05)]).boxed(),
         ],
         workers: 16,
     }
